@@ -488,9 +488,10 @@ const keyMedianSat = "C13/validate-header/median-duration-saturation"
 func (v *vctx) compare(s consensus.State, h types.BlockHeader, what string, tl *tally) error {
 	cs := v.conds(h)
 	want := cs[0] && cs[1] && cs[2] && cs[3]
-	if medianSaturates(v.hist) && stats.KnownOpen(keyMedianSat) {
-		// open known finding: the library's even-count median is wrong when the two middle
-		// timestamps are more than ~292 years apart; only the timestamp verdict is affected.
+	if !cs[1] && medianSaturates(v.hist) && stats.KnownOpen(keyMedianSat) {
+		// open known finding: the library's even-count median is too low when the two middle
+		// timestamps are more than ~292 years apart. A timestamp at or above the true median
+		// is above the library's too, so only headers below the true median are excluded.
 		stats.G().Excluded(keyMedianSat)
 		return nil
 	}
